@@ -36,13 +36,21 @@ pub struct PropDef {
 
 #[cfg(feature = "full")]
 pub mod c02;
+#[cfg(feature = "full")]
+pub mod c03;
 pub mod c04;
 #[cfg(feature = "full")]
+pub mod c05;
+#[cfg(feature = "full")]
 pub mod c09;
+#[cfg(feature = "full")]
+pub mod util;
 #[cfg(feature = "full")]
 pub mod c11;
 #[cfg(feature = "full")]
 pub mod c12;
+#[cfg(feature = "full")]
+pub mod c13;
 #[cfg(feature = "full")]
 pub mod c14;
 #[cfg(feature = "full")]
@@ -59,5 +67,5 @@ pub fn all() -> Vec<PropDef> {
 
 #[cfg(feature = "full")]
 fn full() -> Vec<PropDef> {
-    vec![c02::DEF, c09::DEF, c11::DEF, c12::DEF, c14::DEF, c15::DEF]
+    vec![c02::DEF, c03::DEF, c05::DEF, c09::DEF, c11::DEF, c12::DEF, c13::DEF, c14::DEF, c15::DEF]
 }
